@@ -5,7 +5,7 @@
    inside keys / values make the key non-injective; the witnesses lie outside
    the hypothesis of C05_key_injective and hold for the repaired writer too. *)
 From Coq Require Import ZArith List Bool.
-From Tally Require Import Base.Obs Model.KeyGen Model.Deriv.
+From Tally Require Import Base.ObsCore Model.KeyGen Model.Deriv.
 Import ListNotations.
 Open Scope Z_scope.
 
